@@ -76,7 +76,7 @@ struct Outcome {
 extern "C" int __lsan_do_recoverable_leak_check() __attribute__((weak));
 inline bool& leakcheck_enabled() { static bool b = false; return b; }
 
-__attribute__((noinline)) inline void scrub_stack() { volatile char buf[1 << 16]; for (size_t k = 0; k < sizeof buf; k += 64) buf[k] = 0; }
+__attribute__((noinline)) inline void scrub_stack() { char buf[1 << 16]; memset(buf, 0, sizeof buf); asm volatile("" : : "r"(buf) : "memory"); }
 
 inline Outcome execute(Engine &eng, const Json &cs) {
     Outcome o;
@@ -397,6 +397,7 @@ inline int worker_main(Engine &eng, int argc, char **argv) {
     std::string inflight = dir + "/inflight-" + id + ".json";
     unsigned run_timeout = a.count("timeout") ? (unsigned) atoi(a["timeout"].c_str()) : 120;
     signal(SIGALRM, on_alarm);
+    Json prev_case;     // leak attribution can lag one run behind: keep the previous case as a fallback
     for (long i = from; i < to; i += stride) {
         double el = std::chrono::duration<double>(std::chrono::steady_clock::now() - t0).count();
         if (el > deadline) break;
@@ -420,8 +421,14 @@ inline int worker_main(Engine &eng, int argc, char **argv) {
             std::string vp = dir + "/viol-" + id + "-" + std::to_string(i) + ".json";
             rep.write_file(vp);
             j["viol_file"] = vp;
+            if (o.r.has("lsan:leak") && prev_case.is_obj()) {
+                Json rp = Json::object(); rp["engine"] = eng.name(); rp["seed"] = (long long) seed; rp["run_index"] = (long long) (i - stride); rp["case"] = prev_case;
+                std::string pp = dir + "/viol-" + id + "-" + std::to_string(i) + "-prev.json";
+                rp.write_file(pp); j["viol_file_prev"] = pp;
+            }
         }
         if (samples > 0 && o.r.nontrivial) { j["sample"] = cs; samples--; }
+        if (leakcheck_enabled()) prev_case = cs;
         printf("R %s\n", j.dump().c_str());
     }
     unlink(inflight.c_str());
